@@ -12,6 +12,10 @@
 //   ctor E : point constructor with Gudhi::Euclidean_distance, data = n*k integer coordinates
 //   ctor L : point constructor with the L1 distance, ctor X : with the L-infinity distance
 //   mini / maxi : "-inf" | "inf" | p/q (q a power of two)
+// input line:   H <s> <pre> <ctor> ... : the same in another unit and later in the life of the object: every distance / coordinate /
+//   bound is multiplied by 2^s before it reaches the class and every filtration value divided by 2^s afterwards (exact in binary
+//   floating point: the answer must be the same line as for s = 0), and create_complex has already been called <pre> times on the
+//   same Sparse_rips_complex object (into other simplex trees, with other dimensions) before the call that is reported
 // output line:  ORD p0 p1 .. | S v,v,..:hexfloat v,..:hexfloat ...      or   EXC <what>
 #include <gudhi/Sparse_rips_complex.h>
 #include <gudhi/Simplex_tree.h>
@@ -53,10 +57,13 @@ int main() {
   while (fgets(buf, sizeof buf, stdin)) {
     std::istringstream in(buf);
     std::string tag, ctor, smini, smaxi;
-    long n, en, ed, dim, k;
-    in >> tag >> ctor >> n >> en >> ed >> smini >> smaxi >> dim >> k;
-    if (tag != "C") { vh::emit("ok"); continue; }
-    double eps = (double)en / (double)ed, mini = parse_bound(smini), maxi = parse_bound(smaxi);
+    long n, en, ed, dim, k, sc = 0, pre = 0;
+    in >> tag;
+    if (tag == "H") in >> sc >> pre;
+    else if (tag != "C") { vh::emit("ok"); continue; }
+    in >> ctor >> n >> en >> ed >> smini >> smaxi >> dim >> k;
+    double eps = (double)en / (double)ed, mini = std::ldexp(parse_bound(smini), (int)sc), maxi = std::ldexp(parse_bound(smaxi), (int)sc);
+    auto earlier = [&](SR& sr) { for (long q = 0; q < pre; q++) { ST other; sr.create_complex(other, (int)((dim + 1 + q) % 3)); } };
     calllog.clear();
     std::string res;
     try {
@@ -64,13 +71,14 @@ int main() {
       if (ctor == "M") {
         DM dm;
         std::vector<double> full(n * n);
-        for (long i = 0; i < n * n; i++) in >> full[i];
+        for (long i = 0; i < n * n; i++) { in >> full[i]; full[i] = std::ldexp(full[i], (int)sc); }
         for (long i = 0; i < n; i++) { Row r; r.r = (int)i; for (long j = 0; j < i; j++) r.v.push_back(full[i * n + j]); dm.push_back(r); }
         SR sr(dm, eps, mini, maxi);
+        earlier(sr);
         sr.create_complex(st, (int)dim);
       } else {
         std::vector<Pt> pts(n);
-        for (long i = 0; i < n; i++) { pts[i].id = (int)i; pts[i].resize(k); for (long c = 0; c < k; c++) in >> pts[i][c]; }
+        for (long i = 0; i < n; i++) { pts[i].id = (int)i; pts[i].resize(k); for (long c = 0; c < k; c++) { in >> pts[i][c]; pts[i][c] = std::ldexp(pts[i][c], (int)sc); } }
         char m = ctor[0];
         auto dist = [m](Pt const& a, Pt const& b) -> double {
           calllog.emplace_back(a.id, b.id);
@@ -80,6 +88,7 @@ int main() {
           return s;
         };
         SR sr(pts, dist, eps, mini, maxi);
+        earlier(sr);
         sr.create_complex(st, (int)dim);
       }
       // recover the order from the tail of the call log
@@ -120,7 +129,7 @@ int main() {
         res += " ";
         for (std::size_t i = 0; i < vs.size(); i++) res += (i ? "," : "") + std::to_string(vs[i]);
         char b[64];
-        snprintf(b, sizeof b, ":%a", (double)st.filtration(sh));
+        snprintf(b, sizeof b, ":%a", std::ldexp((double)st.filtration(sh), (int)-sc));
         res += b;
       }
     } catch (const std::exception& e) {
